@@ -351,6 +351,7 @@ def parse_global(mod, line):
 
 FN_ATTR_WORDS = None
 def parse_func_header(mod, line, defined):
+    _fd = re.search(r'!dbg !(\d+)', line)
     line = re.sub(r'![A-Za-z_.]+ !\d+', '', line)
     toks = lex(line)
     p = P(toks, mod)
@@ -377,6 +378,7 @@ def parse_func_header(mod, line, defined):
             if p.accept(')'): break
             p.expect(',')
     f.defined = defined
+    f.dbg = int(_fd.group(1)) if _fd else None
     if f.name in mod.funcs and mod.funcs[f.name].defined:
         return mod.funcs[f.name]
     mod.funcs[f.name] = f
@@ -975,7 +977,25 @@ def md_scope_sub(mod, n, depth=0):
     if m: return md_scope_sub(mod, int(m.group(1)), depth+1)
     return None
 
-def loop_source(mod, ins):
+def loop_source(mod, ins, f=None, latch=None, header=None):
+    r = _loop_source(mod, ins)
+    if r[0] == '?' and f is not None:
+        # back-edge without location (created by the optimiser): use the locations inside the latch, then the header
+        blocks = dict(f.blocks)
+        for lb, rev in ((latch, True), (header, False)):
+            inss = blocks.get(lb, [])
+            for x in (reversed(inss) if rev else inss):
+                if getattr(x, 'dbg', None) is not None:
+                    t = mod.meta.get(x.dbg, '')
+                    sub = md_scope_sub(mod, x.dbg)
+                    ln = re.search(r'line: (\d+)', t)
+                    if sub: return (sub[0], sub[1], int(ln.group(1)) if ln else 0)
+    if r[0] == '?' and f is not None and getattr(f, 'dbg', None) is not None:
+        sub = md_scope_sub(mod, f.dbg)
+        if sub: return (sub[0], sub[1], sub[2])
+    return r
+
+def _loop_source(mod, ins):
     """(subprogram, file, line) of the source loop a back-edge belongs to"""
     cands = []
     if getattr(ins, 'loopmd', None) is not None:
@@ -1032,6 +1052,28 @@ def emit_function(em, f, lines):
             else:
                 raise Exception('phi: no incoming from %s in %s' % (frm, to))
         return ' '.join(out)
+    # emit blocks in reverse post-order: for the (reducible) CFGs clang produces, the only backward gotos in the
+    # C text are then the natural-loop back-edges, which is what CBMC's loop unwinding and path merging want
+    succ = {}
+    for (lb, inss) in f.blocks:
+        t = inss[-1] if inss else None
+        out = []
+        if t is not None and t.op == 'br': out = [t.t] + ([t.f] if t.f else [])
+        elif t is not None and t.op == 'switch': out = [t.d] + [l2 for _, l2 in t.cases]
+        succ[lb] = out
+    seen = set(); post = []
+    stack = [(f.blocks[0][0], iter(succ[f.blocks[0][0]]))]; seen.add(f.blocks[0][0])
+    while stack:
+        node, it = stack[-1]
+        adv = False
+        for nx in it:
+            if nx not in seen:
+                seen.add(nx); stack.append((nx, iter(succ.get(nx, [])))); adv = True; break
+        if not adv:
+            post.append(node); stack.pop()
+    order = list(reversed(post))
+    bmap = dict(f.blocks)
+    f.blocks = [(lb, bmap[lb]) for lb in order]
     fc.bindex = {lb: i for i, (lb, _) in enumerate(f.blocks)}
     fc.cname = em.gname(f.name)
     for (lb, inss) in f.blocks:
@@ -1188,7 +1230,7 @@ def emit_ins(em, fc, lb, ins, L, phi_moves):
         def go(t):
             mark = ''
             if fc.bindex[t] <= fc.bindex[lb]:
-                src = loop_source(em.mod, ins)
+                src = loop_source(em.mod, ins, fc.f, lb, t)
                 em.loops.append({'cfunc': fc.cname, 'src': src[0], 'file': src[1], 'line': src[2]})
                 mark = ' /*@LOOP:%d*/' % (len(em.loops) - 1)
             return 'goto %s;%s' % (fc.label(t), mark)
@@ -1204,7 +1246,7 @@ def emit_ins(em, fc, lb, ins, L, phi_moves):
         def go(t):
             mark = ''
             if fc.bindex[t] <= fc.bindex[lb]:
-                src = loop_source(em.mod, ins)
+                src = loop_source(em.mod, ins, fc.f, lb, t)
                 em.loops.append({'cfunc': fc.cname, 'src': src[0], 'file': src[1], 'line': src[2]})
                 mark = ' /*@LOOP:%d*/' % (len(em.loops) - 1)
             return 'goto %s;%s' % (fc.label(t), mark)
